@@ -27,6 +27,9 @@ _code_matches = []
 
 
 def find_core_tokens(string, root):
+    # drop code span matches left behind by an earlier parse that ended in an exception
+    # before `InlineCode.find` could collect them
+    _code_matches.clear()
     delimiters = []
     matches = []
     escaped = False
